@@ -4,6 +4,10 @@ import json, os
 V = os.path.dirname(os.path.dirname(os.path.abspath(__file__)))
 
 CHECKS = {
+    'C07': ('hole-provenance rules on the vertex attribute / buffer-layout templates + exhaustive vertex-format table lookup + sort-then-dedup discipline',
+            'Structural clauses: one attribute per Binding::Location member of the argument struct (builtins skipped, no other filter), location/offset_of!/format all from the same member, count = length of the same list, impl/stride/attributes name the struct itself; the format table is looked up on all 16 reachable (scalar kind, width, component count) points; impl blocks once per struct (sort(key) then dedup(same key), unfiltered); per-entry helper lists one layout per struct argument in argument order with step-mode parameters declared by the same iteration and N = length of the same list.',
+            'Trusted: Engine A semantics; wgpu-core format semantics by name; rustc offset_of!/size_of with repr(C). Direct @location parameters are outside the property\'s domain.',
+            'DESIGN.md section 3 C07'),
     'C04': ('hole-provenance and sibling-agreement rules over the output grammar (syn-based abstract interpreter) + MIR rules on the group-map construction',
             'Structural clauses decided for every template of the bind-group section: resource-struct fields, BindGroupEntry list and layout-entry list range over the same unfiltered binding list of the same group; field name and `bindings.<name>` come from the same element, `binding:` is that element\'s binding_index (never a position), resource kind partition agrees with the field type partition; all names agree on the group key (impl, descriptor definition/uses, from_bindings parameter, set index); BindGroups/set_bind_groups/pipeline layout range over every key of the same ordered map unadapted; SetBindGroup has exactly the three forwarding impls. The map construction (key = group, element from one variable) is decided by the C11 MIR rules in the same run.',
             'Trusted: Engine A semantics; wgpu behind create_bind_group/set_bind_group; C11 density contract (position == index).',
